@@ -66,6 +66,16 @@ func main() {
 		err = traceACL(o)
 	case "db":
 		err = traceDB(o)
+	case "fs":
+		err = traceFS(o)
+	case "fschild":
+		err = fsChild(o)
+	case "crypto":
+		err = traceCrypto(o)
+	case "golden":
+		err = traceGolden(o)
+	case "mkfixtures":
+		err = mkFixtures(o)
 	default:
 		err = fmt.Errorf("unknown family %q", fam)
 	}
